@@ -460,7 +460,20 @@ J gen_world(uint64_t seed, const J &opts)
 				}
 				ex["muts"] = muts;
 			}
-			if (g.chance(500)) {
+			if (focus == "C17" && g.chance(350)) {
+				// something arrives while the client is established and idle: a Serial Notify or a stray PDU, possibly with its
+				// payload lagging behind its header across the refresh deadline
+				J nf = J::obj();
+				long long r = ex.has("iv") ? ex["iv"][(size_t)0].num() : c["iv"][(size_t)0].num();
+				if (r < 1 || r > 86400)
+					r = refresh;
+				nf["after_s"] = g.chance(600) ? (r > 1 ? r - 1 : 0) : (long long)g.below((uint64_t)r + 1);
+				nf["edits"] = J::arr();
+				nf["send"] = 1;
+				nf["kind"] = g.chance(500) ? "stray" : "notify";
+				nf["gap_ms"] = (long long)g.pick(std::vector<long long>{0, 300, 1500, 2500, 5000});
+				ex["notify"] = nf;
+			} else if (g.chance(500)) {
 				J nf = J::obj();
 				nf["after_s"] = (long long)g.pick(std::vector<long long>{0, 1, 3, 30, 700});
 				nf["edits"] = gen_edits(g, P, 3);
